@@ -75,7 +75,7 @@ def ir(config, flavour, crate="curve25519-dalek", features=None, hooks=True, no_
     if not flavour.startswith("O0"): cmd.append("--release")
     if no_default: cmd.append("--no-default-features")
     if features: cmd += ["--features", ",".join(features)]
-    if with_deps: cmd = [c for c in cmd if c != "rustc"]; cmd.insert(1 if config != "avx512" else 2, "build")
+    if with_deps: cmd = [c for c in cmd if c != "rustc"]; cmd.insert(1 if config != "avx512" else 2, "build"); cmd.append("--message-format=json")
     else: cmd += ["--", "--emit=llvm-ir"] + FLAVOURS[flavour]
     t0 = time.time()
     r = subprocess.run(cmd, cwd=REPO, env=env, capture_output=True, text=True)
@@ -85,7 +85,28 @@ def ir(config, flavour, crate="curve25519-dalek", features=None, hooks=True, no_
     cands = glob.glob(os.path.join(tdir, prof, "deps", crate.replace("-", "_") + "-*.ll"))
     if not cands: raise BuildError("no .ll produced for " + repr(key))
     path = max(cands, key=os.path.getmtime)
+    arts = {}
     if with_deps:
+        # the artifacts of THIS build (fresh or rebuilt), from cargo's own report: a reused target directory may hold IR of other builds
+        import json as _json
+        for line in r.stdout.splitlines():
+            if not line.startswith("{"): continue
+            try: m = _json.loads(line)
+            except ValueError: continue
+            if m.get("reason") != "compiler-artifact" or not set(m.get("target", {}).get("kind", [])) & {"lib", "rlib"}: continue
+            for fnm in m.get("filenames", []):
+                b = os.path.basename(fnm)
+                if b.startswith("lib") and b.endswith((".rlib", ".rmeta")):
+                    ll = os.path.join(os.path.dirname(fnm), b[3:].rsplit(".", 1)[0] + ".ll")
+                    if os.path.exists(ll): arts[b[3:].rsplit("-", 1)[0]] = ll
+        mine = arts.get(crate.replace("-", "_"))
+        if mine: path = mine
+    if with_deps and arts:
+        host = ("proc_macro2", "quote", "syn", "semver", "rustc_version", "version_check", "unicode_ident", "zeroize_derive",
+                "build_script", "serde_derive", "curve25519_dalek_derive", "autocfg")
+        rest = [p for k, p in sorted(arts.items(), key=lambda kv: (kv[0] != "curve25519_dalek", kv[1])) if p != path and not k.startswith(host)]
+        path = [path] + rest
+    elif with_deps:
         host = ("proc_macro2", "quote", "syn", "semver", "rustc_version", "version_check", "unicode_ident", "zeroize_derive",
                 "build_script", "serde_derive", "curve25519_dalek_derive", "autocfg")
         rest = [p for p in sorted(glob.glob(os.path.join(tdir, prof, "deps", "*.ll")), key=lambda q: (not os.path.basename(q).startswith("curve25519_dalek-"), q))
